@@ -222,14 +222,16 @@ Definition wiring_ok (w : stage_wiring) : bool :=
 
 (* statement skeletons the hand model below follows (compared with the generated ones) *)
 Definition body_hydraulics : list string :=
-  ["converged=False"; "reduce_pit:hydraulics"; "internal_data:init"; "newton_raphson";
+  ["converged=False"; "reduce_pit:hydraulics"; "internal_data:init";
+   "try[newton_raphson]except[internal_data:pop;raise]";
    "if_converged["; "hyd_flag=True"; "rerun_hydraulics"; "]"; "internal_data:pop";
    "raise_unless_converged"; "extract_active:hydraulics"].
 Definition body_heat : list string :=
   ["converged=False"; "identify_active:heat"; "reduce_pit:heat_transfer"; "newton_raphson";
    "if_converged["; "rerun_heat_transfer"; "]"; "raise_unless_converged"; "extract_active:heat_transfer"].
 Definition body_bidirectional : list string :=
-  ["converged=False"; "internal_data:init"; "newton_raphson"; "if_converged["; "hyd_flag=True"; "]";
+  ["converged=False"; "internal_data:init"; "try[newton_raphson]except[internal_data:pop;raise]";
+   "if_converged["; "hyd_flag=True"; "]";
    "internal_data:pop"; "raise_unless_converged"].
 Definition body_pipeflow : list string :=
   ["init_options"; "init_all_result_tables"; "create_lookups"; "initialize_pit"; "converged=False";
@@ -270,8 +272,9 @@ Record netst := {
 (* one execution of a stage's Newton loop: its settings, its (arbitrary) observations and whether a
    component asks for a rerun afterwards *)
 Inductive escape := NoEscape | EscNotConverged | EscOther.
-(* ri_escape: an exception leaves the stage from inside its Newton loop (raised by the solve function) or
-   before it (reduce_pit ...): the loop only runs while net.converged is False *)
+(* ri_escape: an exception leaves the stage from inside its newton_raphson call (raised by the solve
+   function or by the driver): the loop only runs while net.converged is False; hydraulics / bidirectional
+   catch it, drop _internal_data unless reuse_internal_data, and re-raise *)
 Record run_in := { ri_cfg : config; ri_orc : state -> obs; ri_rerun : bool; ri_escape : escape }.
 
 Inductive stage_kind := KHyd | KHeat | KBid.
@@ -294,13 +297,13 @@ Fixpoint stage (k : stage_kind) (reuse heat_unsupplied : bool) (r : run_in) (mor
   let n0 := set_conv n false (n_alpha n) in
   if (match k with KHeat => heat_unsupplied | _ => false end) then (n0, NotConverged, []) else
   let n1 := match k with KHeat => n0 | _ => set_idata n0 true end in
+  let pop x := match k with KHeat => x | _ => if reuse then x else set_idata x false end in
   match ri_escape r with
-  | EscNotConverged => (n1, NotConverged, [])
-  | EscOther => (n1, OtherException, [])
+  | EscNotConverged => (pop n1, NotConverged, [])
+  | EscOther => (pop n1, OtherException, [])
   | NoEscape =>
   let st := newton (ri_cfg r) (ri_orc r) (n_conv n1) (n_alpha n1) in
   let n2 := set_conv n1 (s_conv st) (s_alpha st) in
-  let pop x := match k with KHeat => x | _ => if reuse then x else set_idata x false end in
   if s_conv st then
     let n3 := match k with KHeat => n2 | _ => set_hyd_flag n2 end in
     match k, ri_rerun r, more with
@@ -408,7 +411,8 @@ Definition summary {A} (ok : A -> bool) (cs : list A) : nat * nat * Z :=
    (which branch of the control flow was taken, read off the real run) and what was observed after *)
 Record pcall := {
   pc_mode : pmode; pc_env : penv;
-  pc_obs_outcome : outcome; pc_obs_conv : bool; pc_obs_tables : tables
+  pc_obs_outcome : outcome; pc_obs_conv : bool; pc_obs_tables : tables;
+  pc_obs_idata : bool                 (* "_internal_data" in net after the call *)
 }.
 
 Definition outcome_eqb (a b : outcome) : bool :=
@@ -422,7 +426,7 @@ Fixpoint pseq_ok (calls : list pcall) (n : netst) : bool :=
   | c :: r =>
       let '(n', o, _) := pipeflow (pc_mode c) (pc_env c) n in
       outcome_eqb o (pc_obs_outcome c) && Bool.eqb (n_conv n') (pc_obs_conv c) &&
-      tables_eqb (n_tables n') (pc_obs_tables c) && pseq_ok r n'
+      tables_eqb (n_tables n') (pc_obs_tables c) && Bool.eqb (n_idata n') (pc_obs_idata c) && pseq_ok r n'
   end.
 
 (* a sequence with the net state it starts from (fresh net, or the state observed after a call the
